@@ -168,6 +168,11 @@ func (t *Type) UnmarshalJSON(buf []byte) error {
 				if err != nil {
 					return err
 				}
+				for _, name := range optionals {
+					if _, exists := atys[name]; !exists {
+						return fmt.Errorf("optional attribute %q is not declared in the object type", name)
+					}
+				}
 				*t = ObjectWithOptionalAttrs(atys, optionals)
 			} else {
 				*t = Object(atys)
